@@ -11,7 +11,10 @@ def run(ctx):
     if not ctx.replay:
         vlib.model_check(ctx, chainfam.FAM, "ChainMC.tla", "Chain_index.cfg", timeout=3000, heap="16g", deadlock=False)
         vlib.model_check(ctx, chainfam.FAM, "ChainMC.tla", "Chain_light.cfg", timeout=3000, heap="16g", deadlock=False)
+        vlib.model_check(ctx, chainfam.FAM, "ChainMC.tla", "Chain_pruned.cfg", timeout=3000, heap="16g", deadlock=False)
         if not q:
+            vlib.model_check(ctx, chainfam.FAM, "ChainMC.tla", "Chain_asis_D16.cfg", expect_violation="LookupInv", timeout=3000, deadlock=False)
+            vlib.model_check(ctx, chainfam.FAM, "ChainMC.tla", "Chain_asis_D17.cfg", expect_violation="CanonIsAncestryInv", timeout=3000, deadlock=False)
             vlib.model_check(ctx, chainfam.FAM, "ChainMC.tla", "Chain_asis_D1.cfg", expect_violation="NothingAboveHeadInv", timeout=3000, deadlock=False)
             vlib.model_check(ctx, chainfam.FAM, "ChainMC.tla", "Chain_asis_D12.cfg", expect_violation="LookupInv", timeout=3000, deadlock=False)
             vlib.model_check(ctx, chainfam.FAM, "ChainMC.tla", "Chain_asis_D13.cfg", expect_violation="NoPanic", timeout=3000, deadlock=False)
